@@ -224,8 +224,14 @@ func (c01) less(c *core.C, vs []model.Ver) {
 	for i := range vs {
 		for j := range vs {
 			want, _ := model.RefCmp(vs[i], vs[j])
-			if s.Less(i, j) != (want < 0) {
-				c.Failf("Slice.Less(%d,%d)=%v on %v / %v; reference order says %d", i, j, s.Less(i, j), s[i], s[j], want)
+			lij, lji := s.Less(i, j), s.Less(j, i)
+			switch {
+			case want < 0 && (!lij || lji), want > 0 && (lij || !lji):
+				c.Failf("Slice.Less(%d,%d)=%v, Less(%d,%d)=%v on %v / %v; reference order says %d", i, j, lij, j, i, lji, s[i], s[j], want)
+			case want == 0 && lij && lji:
+				// versions that compare equal may be told apart by a tie-break (Less is the sort adapter, not
+				// Compare), but never in both directions
+				c.Failf("Slice.Less(%d,%d) and Less(%d,%d) are both true on the equal versions %v / %v", i, j, j, i, s[i], s[j])
 			}
 			c.Cover("less-agree")
 		}
